@@ -7,6 +7,7 @@ CONSTANTS
   MaxCrash = 1
   MaxCreate = 2
   MaxHist = 1
+  MaxHistUnlisted = 1
   RECORD_FIRST = FALSE
   OVERWRITE = FALSE
   READ_LIVE = FALSE
